@@ -1,4 +1,5 @@
 import Pearl.Proofs.CancelLemmas
+import Pearl.Proofs.CancelRefine
 import Pearl.Props.C05
 import Pearl.Props.C06
 import Pearl.Props.C11
@@ -458,6 +459,256 @@ example : (Fault.run 4096 Fault.fresh [(C11.wA, .ok), (C11.wB, .failBefore)]).fi
     (Fault.run 4096 Fault.fresh [(C11.wA, .ok), (C11.wB, .failBefore)]).file.bytes.length = 92 := by
   decide
 
+/-! ## operations that are NOT cancelled refine the L2 operations -/
+
+/-- `delete` that is not cancelled is `Store.delete` on the L2 view (no hypothesis on `s0` is needed, as
+    for `write_completes`), and dropping the future after its last await is the same as not dropping it.
+    The state it leaves is explicit: `Pearl.Cancel.delete_run`. -/
+theorem delete_completes (c : Cfg) (a : DArgs) (s0 : CStore) :
+    (runItems (deleteSegments c a s0) s0).toStore = (s0.toStore.delete a.k a.ts a.m a.oip).1 ∧
+    ∀ k, awaits (deleteSegments c a s0) ≤ k →
+      cancelAfter k (deleteSegments c a s0) s0 = runItems (deleteSegments c a s0) s0 :=
+  ⟨delete_refines c a s0, fun k hk => cancelAfter_ge _ k s0 hk⟩
+
+/-- the state a completed delete leaves: the active blob is created if `!only_if_presented` and there is
+    none (`delS1`); `Blob::delete` (`delB`) on the active blob with the caller's `only_if_presented`, on
+    every closed blob with `only_if_presented = true`; nothing else changes -/
+theorem delete_completes_state (c : Cfg) (a : DArgs) (s0 : CStore) :
+    runItems (deleteSegments c a s0) s0 =
+      { delS1 a s0 with
+        active := (delS1 a s0).active.map (delB c a a.oip)
+        slots := (delS1 a s0).slots.map (·.map (delB c a true)) } ∧
+    ∀ oip b, (delB c a oip b).toBlob = (Store.blobDelete b.toBlob a.k a.ts a.m oip).1 :=
+  ⟨delete_run c a s0, fun oip b => toBlob_delB c a oip b⟩
+
+/-- the number `Storage::delete` returns (`Store.delete .. .2`, the number of blobs marked) is the number of
+    record images the completed operation added to the blob files (`CStore.fileRecCount`: all blobs of
+    the storage, ghost lists `frecs`) -/
+theorem delete_returns_count (c : Cfg) (a : DArgs) (s0 : CStore) :
+    (runItems (deleteSegments c a s0) s0).fileRecCount =
+      s0.fileRecCount + (s0.toStore.delete a.k a.ts a.m a.oip).2 :=
+  delete_count c a s0
+
+/-- on ANY state that satisfies the invariant — in particular on every state a cancelled write or delete
+    left (`write_cancel_keeps_inv`, `delete_cancel_keeps_inv`) — a delete that is not cancelled is
+    `Store.delete` and keeps the invariant -/
+theorem later_delete_succeeds (c : Cfg) (a : DArgs) (t : CStore) (hinv : StoreInv c t)
+    (hm : (serMeta a.entry.1.mt).length < 2 ^ 64) :
+    let t2 := runItems (deleteSegments c a t) t
+    t2.toStore = (t.toStore.delete a.k a.ts a.m a.oip).1 ∧ StoreInv c t2 :=
+  ⟨delete_refines c a t, delete_cancel_inv c a t _ hinv hm (cancelStates_run _ _)⟩
+
+/-- a delete after a cancelled delete succeeds -/
+theorem later_delete_after_cancelled_delete (c : Cfg) (a a2 : DArgs) (s0 : CStore) (k : Nat)
+    (hinv : StoreInv c s0) (hm : (serMeta a.entry.1.mt).length < 2 ^ 64)
+    (hm2 : (serMeta a2.entry.1.mt).length < 2 ^ 64) :
+    let t := cancelAfter k (deleteSegments c a s0) s0
+    let t2 := runItems (deleteSegments c a2 t) t
+    t2.toStore = (t.toStore.delete a2.k a2.ts a2.m a2.oip).1 ∧ StoreInv c t2 :=
+  later_delete_succeeds c a2 _ (delete_cancel_keeps_inv c a s0 k hinv hm) hm2
+
+/-- `Inner::create_active_blob` (no active blob): not cancelled it is `Store.tryCreateActive`; dropped at
+    any await it leaves nothing, the 0-byte file, the file with its header, or the new active blob — in
+    each case every query answers as before (a blob id may be used up) -/
+theorem create_completes (c : Cfg) (s0 : CStore) (hact : s0.active = none) :
+    s0.toStore.tryCreateActive = .ok (runItems (createItems c s0.nextId) s0).toStore ∧
+    (∀ k, awaits (createItems c s0.nextId) ≤ k →
+      cancelAfter k (createItems c s0.nextId) s0 = runItems (createItems c s0.nextId) s0) ∧
+    ∀ k, let t := cancelAfter k (createItems c s0.nextId) s0
+      (t = s0 ∨ t = sFile s0 ∨ t = sHdr s0 ∨ t = runItems (createItems c s0.nextId) s0) ∧
+      QEq s0.toStore t.toStore ∧ QEq s0.regen t.regen ∧ (StoreInv c s0 → StoreInv c t) := by
+  refine ⟨create_refines c s0 hact, fun k hk => cancelAfter_ge _ k s0 hk, ?_⟩
+  intro k t
+  have hst := create_cancelStates c s0 t ⟨k, rfl⟩
+  rw [create_run]
+  refine ⟨hst, ?_⟩
+  rcases hst with h | h | h | h <;> rw [h]
+  · exact ⟨QEq.refl _, QEq.refl _, id⟩
+  · exact ⟨by rw [toStore_sFile]; exact qeq_bump _, by rw [regen_sFile]; exact qeq_bump _, fun hi => hi.sFile⟩
+  · exact ⟨by rw [toStore_sHdr]; exact qeq_bump _, by rw [regen_sHdr]; exact qeq_bump _, fun hi => hi.sHdr⟩
+  · have h1 : s0.toStore.active = none := by
+      show s0.active.map CBlob.toBlob = none
+      rw [hact]; rfl
+    have h2 : s0.regen.active = none := by
+      show s0.active.map CBlob.regenBlob = none
+      rw [hact]; rfl
+    exact ⟨by rw [toStore_sNew]; exact qeq_createActive _ h1, by rw [regen_sNew]; exact qeq_createActive _ h2,
+      fun hi => hi.sNew⟩
+
+/-- `closeA` (used in the witnesses above; it has no await in this model) is `Store.closeActive`, and it
+    keeps the invariant -/
+theorem closeA_refines (c : Cfg) (s : CStore) (b : CBlob) (hact : s.active = some b) :
+    s.toStore.closeActive = .ok (closeA s).toStore ∧ (StoreInv c s → StoreInv c (closeA s)) := by
+  constructor
+  · unfold Store.closeActive CStore.toStore closeA
+    rw [hact]
+    simp
+  · intro hA
+    refine ⟨?_, ?_, hA.stray⟩
+    · intro b' hb'; cases hb'
+    · intro b' hb'
+      unfold closeA at hb'
+      simp only [List.mem_append, List.mem_singleton] at hb'
+      rcases hb' with hb' | hb'
+      · exact hA.closed b' hb'
+      · exact hA.active b' hb'.symm
+
+-- `delete_completes` on the two-blob witness: a marker in each blob
+set_option maxRecDepth 1000000 in
+example : (runItems (deleteSegments c3 del1 sTwoBlobs) sTwoBlobs).toStore =
+      (sTwoBlobs.toStore.delete 1 10 none true).1 ∧
+    (sTwoBlobs.toStore.delete 1 10 none true).1.recordsCountDetailed = [2, 2] ∧
+    (sTwoBlobs.toStore.delete 1 10 none true).2 = 2 :=
+  ⟨(delete_completes c3 del1 sTwoBlobs).1, by decide, by decide⟩
+
+-- `!only_if_presented` on a storage without an active blob: the blob is created, it gets the marker
+set_option maxRecDepth 1000000 in
+example : (runItems (deleteSegments c3 { del1 with oip := false } {}) {}).toStore =
+      (({} : CStore).toStore.delete 1 10 none false).1 ∧
+    (({} : CStore).toStore.delete 1 10 none false).1.recordsCountDetailed = [1] :=
+  ⟨(delete_completes c3 { del1 with oip := false } {}).1, by decide⟩
+
+example : ({} : CStore).toStore.tryCreateActive = .ok (runItems (createItems c3 0) {}).toStore :=
+  (create_completes c3 {} rfl).1
+
+/-! ## the orphan record through further sessions -/
+
+/-- `Blob::from_file` (`CBlob.restart`, Pearl/Proofs/CancelRefine.lean) gives the blob the records
+    `CBlob.restartRecs` says, and keeps the invariant (`BlobInv2` = `BlobInv` + "an index file the next
+    start would accept lists records of the file, in file order, that load"), whether the index file is
+    accepted or the index is regenerated -/
+theorem restart_keeps_inv (c : Cfg) (b : CBlob) (hinv : BlobInv2 c b)
+    (hm : ∀ x ∈ b.frecs, (serMeta x.1.mt).length < 2 ^ 64) :
+    (b.restart c).toBlob.recs = b.restartRecs ∧ BlobInv2 c (b.restart c) ∧ BlobInv2 c b.dump ∧
+    (b.restart c).frecs = b.frecs ∧ (b.restart c).file.bytes = b.file.bytes :=
+  ⟨restart_recs c b, hinv.restart hm, hinv.dump, restart_frecs c b, restart_bytes c b⟩
+
+/-- `orphan_hidden_by_dump` through ANY number of (dump; restart) rounds (`act`: the blob is the active
+    blob of the next session — its index is loaded — or a closed one): after `n + 1` rounds the file
+    still holds the orphan record, the index is still the one that does not know it, the index file is
+    the one the next start accepts, and that start again gives the blob the old records only. -/
+theorem orphan_hidden_rounds (c : Cfg) (x : RecB) (b : CBlob) (hinv : BlobInv c b)
+    (hd : b.onDisk = false) (hne : b.idx ≠ []) (act : Bool) (n : Nat) :
+    let t := rounds c act (n + 1) (b.fileWrite c x)
+    t.frecs = b.frecs ++ [x] ∧ t.file = (b.fileWrite c x).file ∧ t.idx = b.idx ∧
+    t.idxFile = some (b.idx, t.file.bytes.length) ∧ t.Accepts ∧
+    t.toBlob.recs = b.idx.map (·.1.1) ∧ t.restartRecs = b.idx.map (·.1.1) ∧
+    t.idx.length < t.frecs.length := by
+  intro t
+  have ht : t = hiddenState c x b act := rounds_orphan c x b hinv.size hd hne act n
+  have hlen : b.idx.length ≤ b.frecs.length := by
+    have := hinv.sub.length_le
+    simpa using this
+  rw [ht]
+  refine ⟨rfl, rfl, rfl, rfl, ⟨b.idx, rfl⟩, rfl, ?_, ?_⟩
+  · unfold CBlob.restartRecs hiddenState
+    simp only [↓reduceIte]
+  · show b.idx.length < (b.frecs ++ [x]).length
+    rw [List.length_append, List.length_singleton]
+    omega
+
+/-- The general form: after the orphan write, ANY sequence of completed writes / deletion markers on
+    the blob (`.write`), `load_index`, `dump` and restarts — as long as every start accepts the index
+    file it finds — leaves the orphan record in the file (at its position, right after the records the
+    file had) and out of the index: the index knows what it knew plus the records written since.
+    Hypothesis `hif`: an index file the blob already has carries a `blob_size` that is at most the
+    length of the blob file (true without an index file; every step keeps it: `Hidden.idxFile`). -/
+theorem orphan_hidden_while_accepted (c : Cfg) (x : RecB) (b : CBlob) (hinv : BlobInv c b)
+    (hif : ∀ es bs, b.idxFile = some (es, bs) → bs ≤ b.file.bytes.length)
+    (steps : List BStep) (hacc : AllAccepted c steps (b.fileWrite c x)) :
+    let t := runSteps c steps (b.fileWrite c x)
+    t.frecs = b.frecs ++ x :: writesOf steps ∧
+    t.idx.map (·.1) = b.idx.map (·.1) ++ writesOf steps ∧
+    t.toBlob.recs = b.idx.map (·.1.1) ++ (writesOf steps).map (·.1) ∧
+    t.idx.length < t.frecs.length ∧ t.file.size = t.file.bytes.length := by
+  intro t
+  have h := (Hidden.orphan c x b hinv.size hif).steps c steps hacc
+  simp only [List.nil_append] at h
+  have hlen : b.idx.length ≤ b.frecs.length := by
+    have := hinv.sub.length_le
+    simpa using this
+  refine ⟨h.frecs, h.idx, ?_, ?_, h.size⟩
+  · have := congrArg (List.map (fun y : RecB => y.1)) h.idx
+    simpa [CBlob.toBlob, List.map_map, Function.comp_def] using this
+  · show (runSteps c steps (b.fileWrite c x)).idx.length < (runSteps c steps (b.fileWrite c x)).frecs.length
+    have h1 := congrArg List.length h.idx
+    have h2 := congrArg List.length h.frecs
+    simp only [List.length_map, List.length_append, List.length_cons] at h1 h2
+    omega
+
+/-- ... and the first start that does NOT accept the index file regenerates the index: every record of
+    the file, the orphan included, is indexed from then on -/
+theorem orphan_visible_after_rejected_start (c : Cfg) (x : RecB) (b : CBlob) (hinv : BlobInv c b)
+    (hif : ∀ es bs, b.idxFile = some (es, bs) → bs ≤ b.file.bytes.length)
+    (steps : List BStep) (hacc : AllAccepted c steps (b.fileWrite c x))
+    (hrej : ¬ (runSteps c steps (b.fileWrite c x)).Accepts) :
+    let t := (runSteps c steps (b.fileWrite c x)).restart c
+    t.idx.map (·.1) = b.frecs ++ x :: writesOf steps ∧
+    t.toBlob.recs = b.frecs.map (·.1) ++ x.1 :: (writesOf steps).map (·.1) := by
+  intro t
+  have h := (orphan_hidden_while_accepted c x b hinv hif steps hacc).1
+  have h1 : t.idx.map (·.1) = b.frecs ++ x :: writesOf steps := by
+    rw [← h]; exact restart_rejected c _ hrej
+  refine ⟨h1, ?_⟩
+  have := congrArg (List.map (fun y : RecB => y.1)) h1
+  simpa [CBlob.toBlob, List.map_map, Function.comp_def] using this
+
+/-! witnesses: blob 0 after `w1` was written; `w2` is written by a detached closure whose future is dropped -/
+
+def bA : CBlob := ((runItems (writeSegments c3 w1 { allowDup := true }) { allowDup := true }).active).getD default
+
+set_option maxRecDepth 1000000 in
+theorem bA_inv : BlobInv c3 bA ∧ bA.onDisk = false ∧ bA.idx ≠ [] ∧ bA.idxFile = none := by
+  have h0 : StoreInv c3 ({ allowDup := true } : CStore) := storeInv_noBlobs c3 _ rfl rfl rfl
+  have hA := write_cancel_inv c3 w1 _ _ h0 (by decide) (cancelStates_run _ _)
+  exact ⟨hA.active bA (by decide), by decide, by decide, by decide⟩
+
+-- three (dump; restart) rounds: 2 records in the file, 1 in the index, and the 4th start accepts again
+example : let t := rounds c3 false 3 (bA.fileWrite c3 w2.entry)
+    t.frecs.length = 2 ∧ t.toBlob.recs.length = 1 ∧ t.Accepts ∧ t.restartRecs.length = 1 := by
+  intro t
+  have h := orphan_hidden_rounds c3 w2.entry bA bA_inv.1 bA_inv.2.1 bA_inv.2.2.1 false 2
+  have hl : bA.idx.length = 1 := by decide
+  have hf : bA.frecs.length = 1 := by decide
+  refine ⟨?_, ?_, h.2.2.2.2.1, ?_⟩
+  · show (rounds c3 false 3 (bA.fileWrite c3 w2.entry)).frecs.length = 2
+    rw [h.1, List.length_append, hf]; rfl
+  · show (rounds c3 false 3 (bA.fileWrite c3 w2.entry)).toBlob.recs.length = 1
+    rw [h.2.2.2.2.2.1, List.length_map, hl]
+  · show (rounds c3 false 3 (bA.fileWrite c3 w2.entry)).restartRecs.length = 1
+    rw [h.2.2.2.2.2.2.1, List.length_map, hl]
+
+-- dump, restart (accepted), index loaded, one more write, dump, restart: every start accepts — the
+-- blob was dumped after its last write — and the orphan is still not indexed ...
+set_option maxRecDepth 1000000 in
+example : AllAccepted c3 [.dump, .restart, .load, .write w1.entry, .dump, .restart] (bA.fileWrite c3 w2.entry) ∧
+    (runSteps c3 [.dump, .restart, .load, .write w1.entry, .dump, .restart] (bA.fileWrite c3 w2.entry)).toBlob.recs.length = 2 ∧
+    (runSteps c3 [.dump, .restart, .load, .write w1.entry, .dump, .restart] (bA.fileWrite c3 w2.entry)).frecs.length = 3 := by
+  have hacc : AllAccepted c3 [.dump, .restart, .load, .write w1.entry, .dump, .restart] (bA.fileWrite c3 w2.entry) := by
+    refine ⟨trivial, by decide, trivial, trivial, trivial, by decide, trivial⟩
+  have h := orphan_hidden_while_accepted c3 w2.entry bA bA_inv.1
+    (fun es bs hf => by rw [bA_inv.2.2.2] at hf; cases hf) _ hacc
+  have hl : bA.idx.length = 1 := by decide
+  have hf : bA.frecs.length = 1 := by decide
+  refine ⟨hacc, ?_, ?_⟩
+  · rw [h.2.2.1]; simp [writesOf, hl]
+  · rw [h.1]; simp [writesOf, hf]
+
+-- ... whereas a write AFTER the last dump makes the next start reject the index file (its `blob_size` is
+-- the old length): the index is regenerated and holds all three records
+set_option maxRecDepth 1000000 in
+example : ¬ (runSteps c3 [.dump, .write w1.entry] (bA.fileWrite c3 w2.entry)).Accepts ∧
+    ((runSteps c3 [.dump, .write w1.entry] (bA.fileWrite c3 w2.entry)).restart c3).toBlob.recs.length = 3 := by
+  have hacc : AllAccepted c3 [.dump, .write w1.entry] (bA.fileWrite c3 w2.entry) := ⟨trivial, trivial, trivial⟩
+  have hrej : ¬ (runSteps c3 [.dump, .write w1.entry] (bA.fileWrite c3 w2.entry)).Accepts := by
+    decide
+  have h := orphan_visible_after_rejected_start c3 w2.entry bA bA_inv.1
+    (fun es bs hf => by rw [bA_inv.2.2.2] at hf; cases hf) _ hacc hrej
+  have hf : bA.frecs.length = 1 := by decide
+  refine ⟨hrej, ?_⟩
+  rw [h.2]; simp [writesOf, hf]
+
+
 end Pearl.C14
 
 /-
@@ -485,12 +736,31 @@ model takes the closed blobs one after the other; the concurrent reality is the 
 states of `cancel_blob_delete` (each blob's file and index are touched only by its own future), which is a
 superset of the sequential states of `cancel_delete_states`.
 
+PROVED SINCE (Pearl/Proofs/CancelRefine.lean; headline theorems in the sections "operations that are NOT cancelled
+refine the L2 operations" and "the orphan record through further sessions" above)
+  * former item 1: `delete_completes` — `(runItems (deleteSegments c a s0) s0).toStore =
+    (s0.toStore.delete a.k a.ts a.m a.oip).1`, for EVERY `s0` (no well-formedness hypothesis is needed, as for
+    `write_completes`); the state is explicit (`delete_completes_state`), the returned count is the number of
+    markers that reached the files (`delete_returns_count`), and on a `StoreInv` state — which
+    `storeInv_noBlobs`, `write_cancel_keeps_inv`, `delete_cancel_keeps_inv`, `closeA_refines` establish for every
+    state reached by completed / cancelled writes and deletes — the result is again `StoreInv`
+    (`later_delete_succeeds`, `later_delete_after_cancelled_delete`).
+  * uncancelled refinement of the other operations of Model/Cancel.lean: `write` — `write_completes` (was there);
+    `create_active` (`createItems`) — `create_completes` (new: `Store.tryCreateActive`, and every cancel state
+    is query-equivalent to the state before). `close_active` and `restore_active` are NOT operations of
+    Model/Cancel.lean (no segment list); for the `closeA` used in the witnesses: `closeA_refines`
+    (`Store.closeActive`, keeps `StoreInv`).
+  * former item 3: `orphan_hidden_rounds` (any number of (dump; restart) rounds, closed or active blob),
+    `orphan_hidden_while_accepted` (any sequence of completed writes / `load_index` / dumps / restarts in which
+    every start accepts the index file), `orphan_visible_after_rejected_start` (the first start that rejects
+    it indexes the orphan), `restart_keeps_inv` (`CBlob.restart` = `Blob::from_file` agrees with
+    `CBlob.restartRecs` and keeps `BlobInv2`).
+
 NOT YET PROVED
-  1. `delete` that is not cancelled refines `Store.delete` on the L2 view:
-       (runItems (deleteSegments c a s0) s0).toStore = (s0.toStore.delete a.k a.ts a.m a.oip).1
-     (proved blob by blob: `blob_delete_views`; the bookkeeping over `slots.zipIdx` / `List.modify` is missing).
   2. The product-state version of `cancel_delete_states` for `FuturesUnordered` (see NOT MODELLED).
-  3. `orphan_hidden_by_dump` followed through further sessions: the record stays invisible as long as
-     every start accepts the index file, i.e. as long as each dump carries the size of the file at dump
-     time (stated here for one dump + one restart only).
+  4. `close_active` / `restore_active` as segment lists with their await points (`dump` of the closed blob runs
+     in `spawn_blocking`): not modelled, hence no cancellation statement for them.
+  5. The multi-session statements are per blob (`CBlob.restart`); a whole-storage restart of `CStore` (blobs
+     sorted by id, the last one active, the others dumped — `Store.restart`) is not defined at this level, so
+     "the L2 store after n sessions" is not stated.
 -/
